@@ -69,12 +69,7 @@ Definition write_once (x : send_ctx) (w : world) (d : kdec) : send_ctx * world *
 Definition drop_ctx (x : send_ctx) : outcome unit :=
   if negb (bytes_sent (cx_state x) =? 0) && negb (all_bytes_written x) then Panic else Ok tt.
 
-(* into_progress: copies the state, force_finish = mem::forget (no Drop) *)
-Definition into_progress (x : send_ctx) : send_state := cx_state x.
-
-(* SendMessageContext::resume(conn, msg, progress) *)
-Definition resume (c : send_conn) (m : message) (progress : send_state) : send_ctx :=
-  {| cx_conn := c; cx_msg := m; cx_state := progress |}.
+(* into_progress and resume are in Conn/Serial.v *)
 
 (* One loop iteration of write(timeout) is decided by the clock and the kernel: calc_timeout_left
    reports TimedOut before the call (WTimedOut), or write_once runs with a kernel decision. *)
